@@ -181,7 +181,8 @@ func csvCellFor(r *Rng, inDomain bool) any {
 			return float64(r.Range(-3, 3))
 		default:
 			return Pick(r, []string{"a", "b c", "x,y", "say \"hi\"", "line\nbreak", "cr\rin", "é", "漢字", "", "\\.", "a\"", "\"", ",", "tab\tin", "<nil>", "true", "1a", "--1", "e5", "a,\"b\"\n,c", "1,2,3", "12,5", "7,", "1,000", ",5", "over\rstrike", "5%",
-				"#a", "#", "# c", "#1", ";x", "//c", "--", "'q'", "#a,b"})
+				"#a", "#", "# c", "#1", ";x", "//c", "--", "'q'", "#a,b",
+				"'=1+1", "'-", "'@h", "=1+1", "+x", "-x", "@h", "'", "''"})
 		}
 	}
 	return Pick(r, []any{" lead", "trail ", "12", "1e3", "crlf\r\nx", " ", "nan", nil, true, int64(1) << 60})
